@@ -705,3 +705,79 @@ SPECS["C06"] = CheckSpec(
     technique="preemption-bounded exhaustive schedule enumeration over hooked rwlocks around the real rtr_sync (SCHEDX) + TSan pass",
     design_ref="DESIGN.md §3 C06", engine="SCHEDX",
 )
+
+
+# --------------------------------------------------------------------------- C11 / C12 (BGPsec, INX)
+BGP_BUILD = dict(flavour="asan", name="c11_bgpsec", harness_srcs=["c11_bgpsec.c"],
+                 exclude_lib=["rtrlib/pfx/trie/trie-pfx.c", "rtrlib/spki/hashtable/ht-spkitable.c"])
+
+
+def _gj(prop, gen, args, label, n=1):
+    seed = os.environ.get("VERIF_SEED", "0")
+    return [Job("c11_bgpsec", BGP_BUILD, ["--prop=" + prop, "--gen=" + gen, "--keyseed=" + seed] + args +
+                ["--shard=%d" % i, "--nshards=%d" % n], "%s shard %d/%d" % (label, i, n)) for i in range(n)]
+
+
+def c11_jobs(tier, repo):
+    if tier == "quick":
+        return (_gj("C11", "fields", ["--hops=3"], "all field values, 1..3 hops", 8)
+                + _gj("C11", "nlri", [], "every NLRI length")
+                + _gj("C11", "keycfg", ["--hops=3"], "key-table configurations, 1..3 hops")
+                + _gj("C11", "bitflip", ["--hops=3"], "single-bit flips, 1..3 hops", 4)
+                + _gj("C11", "malformed", [], "malformed inputs"))
+    return (_gj("C11", "fields", ["--hops=4"], "all field values, 1..4 hops", 32)
+            + _gj("C11", "nlri", [], "every NLRI length")
+            + _gj("C11", "keycfg", ["--hops=5"], "key-table configurations, 1..5 hops")
+            + _gj("C11", "bitflip", ["--hops=5"], "single-bit flips, 1..5 hops", 16)
+            + _gj("C11", "malformed", [], "malformed inputs"))
+
+
+def c12_jobs(tier, repo):
+    if tier == "quick":
+        return (_gj("C12", "signing", ["--hops=3"], "originations and forwardings, 1..3 hops", 8)
+                + _gj("C12", "sign-errors", [], "unloadable keys, suites, AFIs, segment counts"))
+    return (_gj("C12", "signing", ["--hops=4", "--full"], "originations and forwardings, 1..4 hops", 32)
+            + _gj("C12", "sign-errors", [], "unloadable keys, suites, AFIs, segment counts"))
+
+
+_BGP_NOTE = ("Oracle: own serializer of the RFC 8205 section 4.2 digest input (one digest per signature from scratch) + "
+             "OpenSSL EVP_DigestVerify/EVP_DigestSign; the library uses SHA256_* and ECDSA_verify/ECDSA_sign with an "
+             "offset scheme over one stream. P-256 / SHA-256 are trusted. Keys are deterministic (scalar = SHA-256(seed||i) "
+             "mod n, seed = VERIF_SEED); ECDSA nonces are the one nondeterminism not owned, verdicts do not depend on them.")
+
+SPECS["C11"] = CheckSpec(
+    "C11", c11_jobs,
+    rule="case = (path, NLRI, key table): all paths of 1..3 (thorough 4) hops over pCount {0,1,255} x flags {0,0x80,0xff} "
+         "x AS {1,65536,2^32-1} for IPv4 and IPv6, signed by the reference; every NLRI length 0..32 / 0..128; per hop "
+         "5 key-table configurations (right key under right AS, right key only under another AS, wrong + right key "
+         "under one SKI, wrong key only, SKI absent) in all combinations; on accepted paths EVERY single-bit flip of "
+         "every signed field (target AS, every pCount / flags / AS, suite, AFI, SAFI, NLRI length and bits, later SKIs, "
+         "lengths, every signature bit); all suites != 1, AFIs outside {1,2}, unequal counts, signature lengths "
+         "{0,1,65535}; library answer VALID iff the reference accepts every hop under a key of (AS of the hop, SKI)",
+    assumptions=["paths beyond the hop bound and field values outside the three-value sets are not enumerated",
+                 "cryptographic strength of P-256/SHA-256 is trusted"],
+    counters_map={"executions": ["transitions"], "distinct": ["distinct_outcomes", "bit_flips"]},
+    level_text="Exhaustive enumeration of a finite input space (path shapes x key tables x all single-bit corruptions) "
+               "against an independent implementation of the RFC 8205 digest and standard ECDSA verification.",
+    level_note=_BGP_NOTE,
+    technique="exhaustive input enumeration on the real code against an independent RFC 8205 oracle (INX)",
+    design_ref="DESIGN.md §3 C11", engine="INX",
+)
+
+SPECS["C12"] = CheckSpec(
+    "C12", c12_jobs,
+    rule="case = path built hop by hop with rtr_bgpsec_generate_signature (origination and every forwarding) over the "
+         "C11 field-value space, NLRI lengths cycling over all values, both AFIs; each generated signature must parse "
+         "as a DER ECDSA signature of exactly sig_len bytes, verify under the matching public key over the digest input "
+         "computed by the independent implementation, and the built path must validate VALID in the library; error "
+         "inputs: every single-byte corruption (3 patterns) of the DER private key, every suite != 1, AFIs outside "
+         "{1,2}, every wrong (path_len, sigs_len) pair <= 4",
+    assumptions=["ECDSA nonces are random (not owned); verdicts do not depend on them",
+                 "quick explores one seventh of the 3-hop field space, thorough all of it and 4 hops"],
+    counters_map={"executions": ["transitions"], "distinct": ["distinct_outcomes", "states"]},
+    level_text="Exhaustive enumeration of signing inputs with an independent verifier as oracle, plus exhaustive "
+               "single-byte corruption of the key encoding for the error clause.",
+    level_note=_BGP_NOTE,
+    technique="exhaustive input enumeration on the real code against an independent RFC 8205 verifier (INX)",
+    design_ref="DESIGN.md §3 C12", engine="INX",
+)
